@@ -132,7 +132,9 @@ func (o *Object) compress() (bytes.Buffer, error) {
 	if _, err := w.Write(data); err != nil {
 		return b, fmt.Errorf("fail to compress data: %v", err)
 	}
-	w.Close()
+	if err := w.Close(); err != nil {
+		return b, fmt.Errorf("fail to compress data: %v", err)
+	}
 	return b, nil
 }
 
@@ -144,6 +146,10 @@ func (o *Object) Write(rootGoitPath string) error {
 
 	dirPath := filepath.Join(rootGoitPath, "objects", o.Hash.String()[:2])
 	filePath := filepath.Join(dirPath, o.Hash.String()[2:])
+	// the object which already exists has the same content, so it must not be rewritten
+	if _, err := os.Stat(filePath); err == nil {
+		return nil
+	}
 	if f, err := os.Stat(dirPath); os.IsNotExist(err) || !f.IsDir() {
 		if err := os.Mkdir(dirPath, os.ModePerm); err != nil {
 			return fmt.Errorf("%w: %s", ErrIOHandling, dirPath)
